@@ -73,6 +73,47 @@ h("c10_single_byte_corruption_t", "fdl_telegram.rs", TG, ["C10"], tier="thorough
 h("c10_sc_corruption", "fdl_telegram.rs", TG, ["C10"], timeout_s=120, functions=DEC,
   bounds="all 255 substitutions of the SC byte", obligation="a corrupted short confirmation is never accepted as a telegram")
 
+# ---- C17 (diagnostics.rs part) -----------------------------------------------------------------
+DG = "dp::diagnostics::verif"
+DIAGF = ["ExtDiagBlockIter::next", "ExtendedDiagnostics::{iter_diag_blocks,raw_diag_buffer,is_available,fill}",
+         "ChannelDataType::from_diag_byte2", "ChannelError::from_diag_byte2", "bitvec BitSlice::from_slice/index (identifier blocks)"]
+h("c17_iter_blocks_q", "dp_diagnostics.rs", DG, ["C17"], panic_props=["C17", "C05"], timeout_s=900, functions=DIAGF,
+  bounds="every stored byte string of length 0..=8 in an 8-byte buffer; iteration driven to exhaustion (<= 10 calls); unwind 12",
+  obligation="next() never panics, ends within length+1 calls, yields exactly the blocks of the reference parser (type, offset, length, decoded fields), stops for good at the first malformed block")
+h("c17_iter_blocks_t", "dp_diagnostics.rs", DG, ["C17"], panic_props=["C17", "C05"], tier="thorough", timeout_s=3600, mem_gb=12, weight=2, functions=DIAGF,
+  bounds="stored byte strings of length 0..=24; unwind 28", obligation="as c17_iter_blocks_q")
+h("c17_iter_blocks_logging_q", "dp_diagnostics.rs", DG, ["C17"], panic_props=["C17", "C05"], timeout_s=900, stubbing=True, functions=DIAGF,
+  stubs=["log::__private_api::loc -> static location (Location::caller unsupported by Kani)"],
+  bounds="as c17_iter_blocks_q with log::set_max_level(Trace): every log argument expression is evaluated (no-op logger, nothing formatted)",
+  obligation="as c17_iter_blocks_q, with logging enabled")
+h("c17_iter_no_buffer", "dp_diagnostics.rs", DG, ["C17"], panic_props=["C17", "C05"], timeout_s=120, functions=DIAGF,
+  bounds="peripheral without diagnostics buffer", obligation="iterating yields nothing and does not panic")
+h("c17_fill_q", "dp_diagnostics.rs", DG, ["C17"], timeout_s=300, functions=["ExtendedDiagnostics::fill"],
+  bounds="buffer capacity 0..=8, previous fill level, data length 0..=8, all symbolic; unwind 10",
+  obligation="stored iff a buffer exists and the data fits; stored bytes == data; otherwise length and bytes unchanged")
+h("c17_fill_t", "dp_diagnostics.rs", DG, ["C17"], tier="thorough", timeout_s=1800, functions=["ExtendedDiagnostics::fill"],
+  bounds="capacity and data length 0..=64; unwind 66", obligation="as c17_fill_q")
+# c17_debug_fmt_q (Debug formatting through core::fmt, <= 3 stored bytes): no verdict within 1200 s -> dropped, listed as outside the claim.
+
+# ---- C03 / C04 / C08 / C14 / C17: one peripheral step --------------------------------------------
+PV = "dp::peripheral::verif"
+PERF = ["Peripheral::{transmit_telegram,receive_reply,send_diagnostics_request,handle_diagnostics_response}",
+        "FrameCountBit::{cycle,reset,fcb,fcv}", "FunctionCode::{new_srd_low,new_srd_high,to_byte}",
+        "TelegramTx::send_data_telegram", "DataTelegramHeader::serialize", "ExtendedDiagnostics::fill",
+        "DiagnosticFlags (bitflags)", "FdlActiveStation::new, parameters()"]
+h("c03_inv_initial", "dp_peripheral.rs", PV, ["C03", "C08"], timeout_s=120, functions=["Peripheral::new", "Peripheral::request_diagnostics"],
+  bounds="any address <= 125, any FDL parameters", obligation="Inv_DP holds for a new peripheral and is preserved by user calls; new peripheral starts offline with FCB=First")
+h("c03_transmit_step_q", "dp_peripheral.rs", PV, ["C03", "C04", "C08", "C14"], panic_props=["C03", "C04", "C05"], timeout_s=1200, mem_gb=10, weight=2, functions=PERF,
+  bounds="one transmit_telegram from ANY peripheral state under Inv_DP: state, retry_count, fcb, diag_needed, options (ident, sync, freeze, groups), user prm 0..=4 B / config 0..=4 B / outputs 0..=4 B (content symbolic, presence symbolic), FDL address, min_tsdr, watchdog factors, max_retry_limit 1..15, Operate/Clear, high-prio flag; unwind 24",
+  obligation="request kind follows the bring-up sequence; wire bytes == reference frame (SAPs 60/61/62, SRD low/high, FCB/FCV, Set_Prm/Chk_Cfg/DX PDU); DX only in data-exchange states; retry limit and Offline event; retry counting; FCB never toggled by transmit; output image never written; Inv_DP preserved")
+h("c03_transmit_step_t", "dp_peripheral.rs", PV, ["C03", "C04", "C08", "C14"], panic_props=["C03", "C04", "C05"], tier="thorough", timeout_s=3600, mem_gb=14, weight=3, functions=PERF,
+  bounds="user prm / config / outputs 0..=32 B; otherwise as _q; unwind 52", obligation="as c03_transmit_step_q")
+h("c03_receive_step_q", "dp_peripheral.rs", PV, ["C03", "C04", "C08", "C14", "C17"], panic_props=["C03", "C04", "C05"], timeout_s=1200, mem_gb=10, weight=2, functions=PERF,
+  bounds="one receive_reply from ANY peripheral state under Inv_DP with ANY FDL-admissible reply: SC, or data telegram from the peripheral with any DSAP/SSAP option, any response state/status, PDU 0..=10 symbolic bytes; inputs 0..=4 B, diagnostics buffer 0..=4 B; unwind 14",
+  obligation="state' == reference bring-up transition; data exchange entered only from config validation by a ready diagnostics reply; events per life-cycle; input image changes only by a right-length non-error DX reply and then equals the payload; DataExchanged iff update (or SC for input-less); output image untouched; diagnostics fields == reply bytes; ext diag stored iff flagged and fits; accepted reply toggles FCB and clears the retry counter; Inv_DP preserved")
+h("c03_receive_step_t", "dp_peripheral.rs", PV, ["C03", "C04", "C08", "C14", "C17"], panic_props=["C03", "C04", "C05"], tier="thorough", timeout_s=3600, mem_gb=14, weight=3, functions=PERF,
+  bounds="inputs 0..=32 B, diagnostics buffer 0..=32 B, PDU 0..=40 B; otherwise as _q; unwind 44", obligation="as c03_receive_step_q")
+
 PROPERTIES = {
     "C09": {
         "claim": "Bounded: for every header (DA/SA 0..127, any SAP options, any function code) and every payload within the stated length/content bounds the real encoder's bytes equal an independent reference frame encoder, the reported lengths agree, and the real decoder returns the identical telegram consuming exactly the frame. Function codes: exhaustive over all bytes and all values.",
@@ -80,6 +121,25 @@ PROPERTIES = {
                         "payload content fully symbolic only up to 8 (quick) / 64 (thorough) bytes; longer payloads with one symbolic fill byte (thorough)"],
         "outside": ["content-dependent behaviour for payloads > 64 bytes (content only flows through a copy and the additive checksum)",
                     "callers passing pdu_len beyond the frame limit (serialize asserts LE <= 249)"],
+    },
+    "C03": {
+        "claim": "Bounded, one-step inductive: from EVERY peripheral state satisfying the representation invariant Inv_DP (proved inductive by the same harnesses) one real transmit_telegram sends exactly the request the DP bring-up sequence prescribes, byte-identical to an independent reference frame (standard SAPs, lock/sync/freeze/watchdog/min Tsdr/ident/groups/user prm; config bytes), a Data_Exchange request only in the data-exchange states; one real receive_reply with ANY FDL-admissible reply moves the bring-up state exactly along Offline -diag-> WaitForParam -SC-> WaitForConfig -SC-> ValidateConfig -ready diag-> data exchange (faults/param request/not-ready as specified). Path argument over the 6-state relation (by hand, DESIGN §4 C03): every path to a DX request passes diag, Set_Prm ack, Chk_Cfg ack, ready diag since the last Offline/re-parameterisation. Watchdog factor search: all 10 ms..650 s.",
+        "assumptions": ["replies are restricted to what the FDL layer admits (SC, or response telegram from the addressed station to this station) - proved as C15's admission lemma",
+                        "user parameters / config / process images up to 4 (quick) / 32 (thorough) bytes with symbolic content and length",
+                        "one peripheral per harness; routing between several peripherals is C14's lemma"],
+        "outside": ["PDU contents for user parameter/config blocks > 32 bytes", "multi-peripheral interleavings beyond C14's routing lemma"],
+    },
+    "C04": {
+        "claim": "Bounded, one-step: from every peripheral state under Inv_DP, a Data_Exchange request carries exactly the output image (zeros in Clear); the input image changes only through a data reply of exactly the configured length without error status in a data-exchange round, and then equals the payload byte for byte; DataExchanged is reported iff such an update happened (or SC for an input-less peripheral); no reply or transmission writes the output image; no panic for any FDL-admissible reply.",
+        "assumptions": ["replies restricted to the FDL admission predicate (C15)", "image lengths 0..=4 (quick) / 0..=32 (thorough) with symbolic content; lengths up to 244 are not explored",
+                        "whether OK-status replies update the image is left open by the property; the code accepts them (allowed by the oracle), RDL/RDH replies are allowed either way"],
+        "outside": ["images longer than 32 bytes"],
+    },
+    "C17": {
+        "claim": "Bounded: for every diagnostics reply (PDU <= 10 / 40 bytes) the reported flags, ident number and master address equal the reply bytes; extended diagnostics are stored iff flagged, a buffer exists and they fit, otherwise the stored ones are unchanged; iterating ANY stored byte string (<= 8 / 24 bytes) terminates without panic within length+1 calls, yields exactly the blocks an independent reference parser finds (type, position, length, decoded fields), and yields nothing after the first malformed block; also with no buffer attached, with logging enabled.",
+        "assumptions": ["the always-one 'permanent' flag bit is deliberately stripped by the code and excluded from the flags comparison",
+                        "a block length of 0 (header included) is malformed; a length-1 block (header only) is accepted as an empty block"],
+        "outside": ["stored strings > 24 bytes; Debug formatting of extended diagnostics (core::fmt did not get through CBMC within 20 min; the iterator it drives is covered); the DP scanner's copy of the decoder is checked under C18"],
     },
     "C10": {
         "claim": "Bounded: for every byte string up to 32 (quick) / 262 (thorough) bytes the decoder neither panics nor reports lengths/payloads outside the input, asks for more data only below the announced length, never contradicts a verdict on a prefix (strings <= 20 / 64 bytes), accepts data frames only under the full acceptance conditions, and never accepts a real encoder frame with one substituted byte (payload <= 8 / 32).",
